@@ -150,7 +150,8 @@ Definition err_eqb (x y : err) : bool :=
      3  the forward went to a connection that is not the primary owner of the destination (C05)
      4  the NoReply errors are not exactly one per open call that ended by disconnect/timeout (C09)
      5  an unrequested reply was refused with something other than AccessDenied, or the refusal changed... (C09)
-     6  a call was passed on although its sender already had max_replies open calls (C09 limit)
+     6  a call was passed on although its sender already had max_replies open calls, not counting the one this very
+        message answers (C09 limit)
      7  destination has no owner but the message was not answered by NameHasNoOwner / ServiceUnknown (C05) *)
 Definition oracle_step (cf : cfg) (tr : trace) (owner : option N) (e : event) (o : out) : N :=
   let T := reply_timeout cf in
@@ -166,7 +167,7 @@ Definition oracle_step (cf : cfg) (tr : trace) (owner : option N) (e : event) (o
                    else if restrictive cf && negb (m_rserial m =? 0) && negb (is_open T tr r c (m_rserial m)) then 1
                    else if is_call m && negb (m_noreply m) &&
                            (max_replies cf <=? N.of_nat (length (filter (fun k => let '(a, _, _) := k in a =? c)
-                                                                             (filter (fun k => negb (key_eqb k (c, r, m_serial m))) (open_keys T tr))))) then 6
+                                                                             (filter (fun k => negb (key_eqb k (c, r, m_serial m)) && negb (key_eqb k (r, c, m_rserial m))) (open_keys T tr))))) then 6
                    else 0
                end
       | [(r, OErr x rs)] =>
